@@ -292,11 +292,14 @@ func ruleKA(c *Checker) {
 		for _, leg := range pingLegs {
 			if leg.fn == sl && (leg.body == st.Block() || leg.body.Dominates(st.Block())) {
 				// the packet flows into addPacket
-				for _, ci := range findCalls(sl, func(ci ssa.CallInstruction) bool {
+				for _, ec := range w.effectiveCalls(sl, func(ci ssa.CallInstruction) bool {
 					sc := ci.Common().StaticCallee()
 					return sc != nil && sc.Name() == "addPacket"
 				}) {
-					for _, v := range expandValues(ci.Common().Args[1]) {
+					if len(ec.Args) < 2 || ec.Args[1] == nil {
+						continue
+					}
+					for _, v := range expandValues(ec.Args[1]) {
 						if v == fa.X {
 							sentPing = true
 						}
